@@ -54,8 +54,8 @@ class VariableCacheProvider:
         """
         Keep a processed value alive for as long as this cache is used.
 
-        The cache is keyed by id(value); if a temporary (e.g. a watch result) is released its id can be
-        given to the next temporary, which would then be reported as the first one.
+        The cache is keyed by id(value); if a value is released its id can be given to the next object, which would
+        then be reported as the first one.
 
         :param value: the value to keep alive
         """
@@ -194,6 +194,10 @@ class VariableSetProcessor(Collector):
             # this node has no value, continue with children
             return True
 
+        # every value that gets an id stays alive as long as the ids are used: a value the application releases
+        # meanwhile (a deferred snapshot is completed when the function returns) or one that only existed while we
+        # walked it (attributes computed on demand) would hand its id to the next object at that address
+        self.__var_cache.pin(node_value.value)
         # process this node variable
         process_result = process_variable(self, node_value)
         var_id = process_result.variable_id
